@@ -68,6 +68,9 @@ const PLACEMENTS = {
   'closure-body-in-default-param': (R) => `let ${R} = 'U1';\nfunction f(act) {\n  const v = $.p(act, 1) + $.p(act, 2);\n  function inner(cb = () => { return ${R}; }) { return cb(); }\n  $.u('inner', inner());\n  return v;\n}`,
   'closure-body-in-arrow-default-param': (R) => `let ${R} = 'U1';\nconst rd = () => ${R};\nfunction f(act) {\n  const inner = (cb = function () { ${R} = 'U2'; return 'w'; }) => cb();\n  const v = $.p(act, 1) + $.u('poke', inner()) + $.p(act, 2);\n  return v;\n}\nconst after = () => $.u('outer', rd());`,
   'argument-of-rewritten-optional-call': (R) => `let ${R} = 'U1';\nfunction f(act) {\n  const s = $.p(act, 1);\n  const v = s?.concat(${R});\n  $.u('v', v);\n  return $.p(act, 2) + $.p(act, 3);\n}`,
+  // the mention sits only in a default value of a nested non-arrow function / method / constructor
+  'default-value-of-nested-function': (R) => `let ${R} = 'U1';\nfunction f(act) {\n  const v = $.p(act, 1) + $.p(act, 2);\n  function inner(q = ${R}) { return q; }\n  $.u('q', inner());\n  return v;\n}`,
+  'default-value-of-nested-method': (R) => `let ${R} = 'U1';\nfunction f(act) {\n  const v = $.p(act, 1) + $.p(act, 2);\n  const o = { m(q = ${R}) { return q; } };\n  class K { constructor(q = ${R}) { this.q = q; } }\n  $.u('q', o.m() + new K().q);\n  return v;\n}`,
   'else-if-unbraced': (R) => `let ${R} = 'U1';\nfunction f(act) {\n  const v = $.p(act, 1) + $.p(act, 2);\n  if ($.u('c', 0)) { v.length; } else if ($.u('d', 1)) ${R} = 'U3';\n  const w = $.p(act, 3) + $.p(act, 4);\n  return v + w;\n}\nconst rd = () => ${R};\nconst after = () => $.u('outer', rd());`
 }
 
